@@ -116,3 +116,18 @@ fn test_root() {
     assert_eq!(dsu.root(3), common);
     assert_eq!(dsu.root(4), 4);
 }
+
+// ---------------------------------------------------------------------------
+// verification hooks (add-only, off unless feature `verif-hooks` is enabled)
+#[cfg(feature = "verif-hooks")]
+impl DisjointSetUnion {
+    pub(crate) fn vh_root(&mut self, x: usize) -> usize {
+        self.root(x)
+    }
+    pub(crate) fn vh_state(&self) -> (Vec<usize>, Vec<usize>) {
+        (self.parents.clone(), self.ranks.clone())
+    }
+    pub(crate) fn vh_from_state(parents: Vec<usize>, ranks: Vec<usize>) -> Self {
+        Self { parents, ranks }
+    }
+}
